@@ -34,6 +34,7 @@ THEOREMS = [
     "PyTrie.Props.NonVacuity2.raw_history_is_world_run",
     "PyTrie.Props.NonVacuity2.raw_history_get",
     "PyTrie.Props.NonVacuity2.rawRun_hist",
+    "PyTrie.Props.Raw.pruned_db_get",
 ]
 RULE = ("histories of set/setitem/set-to-empty/delete/delitem and squash_changes batches (committed and aborted) "
         "over crafted and random prefix-sharing key universes (empty key, prefixes, extensions, mid-path "
